@@ -710,6 +710,17 @@ func c16ErrorPathDerefRule(c *engine.Ctx, rule string) {
 					}
 				}
 			}
+			// keep only results the callee can actually return as nil (a helper that hands its argument back together
+			// with the error never does)
+			{
+				var keep []*ssa.Extract
+				for _, ex := range ptrs {
+					if mayReturnNil(cf, ex.Index) {
+						keep = append(keep, ex)
+					}
+				}
+				ptrs = keep
+			}
 			if len(ptrs) == 0 {
 				return
 			}
@@ -1189,4 +1200,24 @@ func c16IndexBounds(c *engine.Ctx, rule string) {
 		})
 	}
 	c.Floor(n, 2)
+}
+
+// mayReturnNil: some return of cf yields a nil constant, a named result, or an unknown value at result index i; false
+// only when every return yields something that is visibly non-nil or handed in by the caller (parameter, address of a
+// field or allocation).
+func mayReturnNil(cf *ssa.Function, i int) bool {
+	may := false
+	engine.ForEachInstr(cf, func(in ssa.Instruction) {
+		r, ok := in.(*ssa.Return)
+		if !ok || i >= len(r.Results) {
+			return
+		}
+		switch x := engine.Unwrap(r.Results[i]).(type) {
+		case *ssa.Parameter, *ssa.FieldAddr, *ssa.Alloc, *ssa.MakeInterface:
+			_ = x
+		default:
+			may = true
+		}
+	})
+	return may
 }
